@@ -27,9 +27,11 @@ VARIABLES
   hid,    \* id of the current history
   run,    \* 1 = as scripted, 2 = same again, 3 = other Rust types / entry points, 4 = other process
   memo,   \* first build of the current group of runs (same shape history), <<>> if none
+  cmemo,  \* what the conversion helper produced in run 1 of the group, one entry per conversion
+  cidx,   \* number of conversions seen in the current run
   src     \* the definition being replayed through the conversion helper, <<>> if none
 
-tvars == <<bvars, l, bad, dead, hid, run, memo, src>>
+tvars == <<bvars, l, bad, dead, hid, run, memo, cmemo, cidx, src>>
 
 e == Rec[l]
 Off(x) == IF x = -1 THEN UNSET ELSE x
@@ -38,6 +40,7 @@ If(c, t) == IF c THEN {t} ELSE {}
 TraceInit ==
   /\ BInit("native")
   /\ l = 1 /\ bad = {} /\ dead = FALSE /\ hid = 0 /\ run = 0 /\ memo = <<>> /\ src = <<>>
+  /\ cmemo = <<>> /\ cidx = 0
 
 Consume(tags) ==
   /\ l' = l + 1
@@ -53,12 +56,14 @@ TraceReset ==
   /\ last' = [op |-> "init"]
   /\ dead' = FALSE /\ hid' = e.hid /\ run' = e.run
   /\ memo' = IF e.run = 1 THEN <<>> ELSE memo
+  /\ cmemo' = IF e.run = 1 THEN <<>> ELSE cmemo
+  /\ cidx' = 0
   /\ src' = <<>>
   /\ Consume({})
 
 TraceSkip ==      \* history that could not be followed: consume up to the next reset
   /\ dead /\ e.ev # "reset"
-  /\ UNCHANGED <<bvars, dead, hid, run, memo, src, bad>>
+  /\ UNCHANGED <<bvars, dead, hid, run, memo, cmemo, cidx, src, bad>>
   /\ l' = l + 1
 
 TraceAdd ==
@@ -79,7 +84,7 @@ TraceAdd ==
           /\ dead' = StateDiffers
           /\ Consume(If(CanAdd(e.name), "C12:add-rejected-fresh-name")
                 \cup If(StateDiffers, "C12:rejected-add-changed-state"))
-  /\ UNCHANGED <<hid, run, memo, src>>
+  /\ UNCHANGED <<hid, run, memo, cmemo, cidx, src>>
 
 TraceRemove ==
   /\ ~dead /\ e.ev = "remove"
@@ -94,7 +99,7 @@ TraceRemove ==
                 \cup If(StateDiffers, "C12:rejected-remove-changed-state"))
   /\ last' = [op |-> "remove", id |-> e.id, res |-> e.res]
   /\ dead' = StateDiffers
-  /\ UNCHANGED <<hid, run, memo, src>>
+  /\ UNCHANGED <<hid, run, memo, cmemo, cidx, src>>
 
 \* facts about the state reached by a close / observed at build, as tags
 LayoutTags ==
@@ -127,7 +132,7 @@ TraceClose ==
                 \cup If(e.res # Len(variants), "C12:noop-close-returned-wrong-variant-id")
                 \cup If(StateDiffers, "C12:state-differs-after-close"))
   /\ last' = [op |-> "close", strategy |-> e.strategy, res |-> e.res]
-  /\ UNCHANGED <<hid, run, memo, src>>
+  /\ UNCHANGED <<hid, run, memo, cmemo, cidx, src>>
 
 NameIn(list, name) ==
   LET hits == {list[i] : i \in {j \in DOMAIN list : defs[list[j]].name = name}} IN
@@ -135,7 +140,7 @@ NameIn(list, name) ==
 
 TraceQuery ==
   /\ ~dead /\ e.ev \in {"qcur", "qvar"}
-  /\ UNCHANGED <<bvars, dead, hid, run, memo, src>>
+  /\ UNCHANGED <<bvars, dead, hid, run, memo, cmemo, cidx, src>>
   /\ IF e.ev = "qcur"
      THEN Consume(If(e.res # NameIn(Current, e.name), "C12:lookup-by-name-in-current-variant"))
      ELSE Consume(If(e.res # (IF e.variant \in DOMAIN variants
@@ -191,10 +196,11 @@ TraceBuild ==
   /\ last' = [op |-> "build", res |-> e.res]
   /\ UNCHANGED <<hid, run>>
   /\ IF e.res = "panic"
-     THEN /\ dead' = TRUE /\ UNCHANGED <<memo, src>>
+     THEN /\ dead' = TRUE /\ UNCHANGED <<memo, cmemo, cidx, src>>
           /\ Consume(If(CanBuild, "C12:build-rejected-although-nothing-pending"))
      ELSE /\ dead' = FALSE
           /\ memo' = IF memo = <<>> THEN MemoOf ELSE memo
+          /\ UNCHANGED <<cmemo, cidx>>
           /\ src' = [defs |-> defs, variants |-> variants]
           /\ Consume(If(~CanBuild, "C12:build-accepted-with-unclosed-changes")
                 \cup BuiltTags \cup MemoTags)
@@ -207,7 +213,7 @@ TraceConvertBegin ==
   /\ kind' = e.target /\ defs' = <<>> /\ variants' = <<>> /\ toAdd' = <<>> /\ toRemove' = {}
   /\ last' = [op |-> "init"]
   /\ dead' = FALSE
-  /\ UNCHANGED <<hid, run, memo, src>>
+  /\ UNCHANGED <<hid, run, memo, cmemo, cidx, src>>
   /\ Consume({})
 
 VMapOk == \A i \in DOMAIN e.map : e.map[i][1] = i
@@ -216,6 +222,10 @@ VMap == [i \in DOMAIN e.map |-> e.map[i][2]]
 TraceConvertEnd ==
   /\ ~dead /\ e.ev = "convert_end"
   /\ Same /\ UNCHANGED <<last, dead, hid, run, memo, src>>
+  /\ cidx' = cidx + 1
+  /\ cmemo' = IF run = 1 /\ e.cres = "ok" /\ e.res = "ok"
+              THEN Append(cmemo, [variants |-> e.variants, offs |-> ObsOffs, code |-> e.code_hash])
+              ELSE IF run = 1 THEN Append(cmemo, <<>>) ELSE cmemo
   /\ IF e.cres # "ok" THEN Consume({"C20:helper-failed-on-a-valid-definition"})
      ELSE IF e.res = "panic" THEN Consume({"C20:target-left-with-unclosed-changes"})
      ELSE LET m == ConvertModel(src.defs, src.variants, kind, last.strategy) IN
@@ -225,6 +235,10 @@ TraceConvertEnd ==
              \cup If(VMapOk /\ ~ConvertPreserves(src.defs, src.variants, ObsDefs, e.variants, VMap),
                      "C20:replayed-definition-not-preserved")
              \cup LayoutTags
+             \cup If(run # 1 /\ cidx + 1 \in DOMAIN cmemo /\ cmemo[cidx + 1] # <<>>
+                     /\ (cmemo[cidx + 1].variants # e.variants \/ cmemo[cidx + 1].offs # ObsOffs
+                         \/ cmemo[cidx + 1].code # e.code_hash),
+                     "C19:replaying-a-definition-through-the-helper-differs-between-runs")
              \cup If(Len(src.variants) > 0
                      /\ (m.b.variants # e.variants \/ m.b.defs # ObsDefs), "DRIFT:convert"))
 
